@@ -1020,7 +1020,13 @@ func (e *Engine) evalValue(st *State, fr *frame, in ssa.Value) (Val, string) {
 		et := in.Type().Underlying().(*types.Slice).Elem()
 		e.nextCell++
 		base := &Opaque{Key: fmt.Sprintf("make#%d", e.nextCell), Type: in.Type(), Fn: "make", Args: []Val{ln}}
-		st.addEvent(Event{Kind: "make", Fn: "make", Args: []Val{ln}, Pos: in.Pos()})
+		var capV Val = ln
+		if in.Cap != nil {
+			if cf, ok := e.val(st, fr, in.Cap).(*Form); ok {
+				capV = cf
+			}
+		}
+		st.addEvent(Event{Kind: "make", Fn: "make", Args: []Val{ln, capV}, Pos: in.Pos()})
 		return &SliceVal{Base: base, Lo: formInt(0), Len: ln, Elem: et}, ""
 	case *ssa.MakeMap:
 		c := e.newCell("map", in.Type())
